@@ -49,7 +49,10 @@ func VerifC18_HpackCross() {
 	}
 	list = append(list, list[verif.Choose("repeat", k)])
 	// table scenarios: (initial limit, new limit); 40 holds one short entry, 0 none
-	scen := [][2]uint32{{4096, 4096}, {4096, 40}, {40, 0}, {4096, 0}, {40, 40}}[verif.Choose("table_scenario", 5)]
+	// ... and limits that the first one or two entries fill exactly (entry size = name + value + 32)
+	sz := func(f zzField) uint32 { return uint32(len(f.name) + len(f.value) + 32) }
+	scen := [][2]uint32{{4096, 4096}, {4096, 40}, {40, 0}, {4096, 0}, {40, 40},
+		{sz(list[0]), sz(list[0])}, {sz(list[0]) + sz(list[1]), sz(list[0]) + sz(list[1])}, {4096, sz(list[0]) + sz(list[1])}}[verif.Choose("table_scenario", 8)]
 	initial, newSize := scen[0], scen[1]
 	resizeAt := k + 1 // never
 	if newSize != initial {
